@@ -263,6 +263,27 @@ pub fn c03_lattice<D: Distance>(
         let mut sup: RoaringBitmap = ids.iter().copied().collect();
         sup |= &disjoint;
         cands.push(Some(sup));
+        // filters that exclude only a few stored items: some at random, and the very nearest of a query
+        let all: RoaringBitmap = ids.iter().copied().collect();
+        let mut few = all.clone();
+        for _ in 0..1 + r.below((n as u64 / 16).max(1)) {
+            few.remove(ids[r.below(ids.len() as u64) as usize]);
+        }
+        cands.push(Some(few));
+        if let Some(q0) = queries.first() {
+            let mut by_dist: Vec<(f64, u32)> = im.items.iter().map(|(id, v)| (im.metric.true_distance(q0, v, im.dim).0, *id)).collect();
+            if by_dist.iter().all(|x| x.0.is_finite()) {
+                by_dist.sort_by(|a, b| a.partial_cmp(b).unwrap());
+                if im.metric.larger_is_nearer() {
+                    by_dist.reverse();
+                }
+                let mut but_nearest = all.clone();
+                for (_, id) in by_dist.iter().take(1 + r.below(3) as usize) {
+                    but_nearest.remove(*id);
+                }
+                cands.push(Some(but_nearest));
+            }
+        }
     }
     let counts = [0usize, 1, 2, n, 1usize << 63, usize::MAX];
     let overs = [None, Some(1usize), Some(2), Some(arroy_default_oversampling(im.metric)), Some(usize::MAX)];
